@@ -183,7 +183,7 @@ def gen_py_file(rnd):
     nm = rnd.choice(["fx", "café", "中", "f_1"])
     ind = rnd.choice(["    ", "\t", "  "])
     body = '%s"""%s"""\n%sreturn 1\n' % (ind, doc, ind)
-    txt = "import pytest\n\n@pytest.fixture\ndef %s(%s):\n%s\n" % (nm, rnd.choice(["", "a", "a, b=1", "éé: int"]), body)
+    txt = "import pytest\n\n@pytest.fixture\ndef %s(%s):\n%s\n" % (nm, rnd.choice(["", "a", "a, b=1", "éé: int", "*args", "**kw", "*args, **kw", "*, k=1"]), body)
     txt += "def test_x(%s%s):\n%s%s\n" % (nm, rnd.choice(["", ": int", " : 'T'", "　= 3"]), ind, rnd.choice(["pass", "x = %s" % nm, '"""　\n  d\n　　e"""']))
     # fixtures named inside string literals: names that are prefixes / suffixes / infixes of one
     # another, with multi-byte first and last characters, in every literal shape the analyzer reads
@@ -226,6 +226,23 @@ def explore_analysis(r, h1, rnd, n):
                 steps.append({"op": q, "path": "/vt/test_a%d.py" % i, "line": ln, "col": col})
             steps.append({"op": "completion_context", "path": "/vt/test_a%d.py" % i, "line": ln, "col": col})
         steps.append({"op": "undeclared", "path": "/vt/test_a%d.py" % i})
+        # the requests that read the parsed tree (parameter insertion, enclosing function, completion context): on the
+        # valid text first (whatever they cache), then on texts cut off inside a signature - shorter than every offset
+        # of the earlier tree - and on the valid text again
+        pth = "/vt/test_a%d.py" % i
+        nl = txt.count("\n") + 2
+        tree_ops = [{"op": q, "path": pth, "line": ln} for ln in range(1, nl) for q in ("param_insertion", "containing_function")] \
+            + [{"op": "completion_context", "path": pth, "line": ln, "col": 4} for ln in range(0, nl)]
+        steps.append({"op": "analyze", "path": pth, "text": txt})
+        steps += tree_ops
+        for marker in ("def test_x(", "@pytest.fixture\ndef "):
+            k = txt.find(marker)
+            if k >= 0:
+                cut = txt[:k + len(marker)] + rnd.choice(["", "(", "*"])
+                steps.append({"op": "analyze", "path": pth, "text": cut})
+                steps += tree_ops
+        steps.append({"op": "analyze", "path": pth, "text": txt})
+        steps += tree_ops[:6]
         cases.append({"id": i, "ops": steps, "text": txt})
     obs, rc = core.run_h1(h1, [{"id": c["id"], "ops": c["ops"]} for c in cases], "C11_analysis", allow_hang=True)
     bad = []
